@@ -281,6 +281,7 @@ C_Step(k) ==
           /\ ln(k).res = Res(UpdateOK(c, a.counter, a.height, a.signer))
     [] ln(k).ev = "Retoggle" -> RetoggleEff(c, a.counter) /\ ln(k).res = "ok"
     [] ln(k).ev = "NewClient" -> NewClientEff(c, a.counter, a.name)
+    [] ln(k).ev = "SendFake" -> UNCHANGED stateVars /\ ln(k).res = "ok"
     [] ln(k).ev = "Rotate" -> RotateEff(c, a.counter) /\ ln(k).res = "ok"
     [] ln(k).ev = "Recv" ->
           /\ RecvEff(c, Base(k), a.alt, a.ph, (IF a.proof = "ok" THEN "ok" ELSE "bad"), a.signer)
